@@ -52,7 +52,9 @@ def isDecimal (s : Str) : Bool := decBody (dropSign s)
 /-- lexical space of xs:integer: `(+|-)? d+`. -/
 def isInteger (s : Str) : Bool := let b := dropSign s; !b.isEmpty && allDigits b
 
-def digitVal (c : Char) : Nat := c.toNat - '0'.toNat
+def digitVal : Char → Nat
+  | '0' => 0 | '1' => 1 | '2' => 2 | '3' => 3 | '4' => 4 | '5' => 5 | '6' => 6 | '7' => 7 | '8' => 8 | '9' => 9
+  | _ => 0
 
 /-- value of the digits of `s` read as one number (non-digits skipped: the decimal point). -/
 def digitsVal (s : Str) : Nat := s.foldl (fun acc c => if c.isDigit then 10 * acc + digitVal c else acc) 0
@@ -282,8 +284,9 @@ def countName (n : String) (ns : List String) : Nat := ns.countP (· == n)
 
 /-- xs:all: every child is one of the elements, each element occurs within its range; order is free -/
 def matchAll (es : List ElemP) (ns : List String) : Option (List String) :=
-  if es.all (fun e => e.min ≤ countName e.name ns && !(atMax (countName e.name ns) (e.max.map (· + 1)))) then
-    ns.mapM (fun n => (es.find? (·.name == n)).map (·.type))
+  if es.all (fun e => decide (e.min ≤ countName e.name ns) && !(atMax (countName e.name ns) (e.max.map (· + 1)))) &&
+     ns.all (fun n => es.any (·.name == n)) then
+    some (ns.map (fun n => match es.find? (·.name == n) with | some e => e.type | none => ""))
   else none
 
 /-- the whole child-name sequence against a content model: `some types` (one per child) or `none`. -/
